@@ -169,6 +169,11 @@ inductive SliceItem
   | range (r : SliceRange)
   deriving Repr, DecidableEq
 
+/-- The reference's view of a slice item. -/
+def toRefItem : SliceItem → NArr.Item
+  | .index i => .index i
+  | .range r => .range r.start r.stop r.step
+
 /-- `SliceItem::index_range`. -/
 def SliceItem.indexRange (it : SliceItem) (n : Nat) : Except Err IndexRange :=
   match it with
